@@ -1,0 +1,54 @@
+//go:build verif
+
+// Contracts for the custom XML marshalers of runs and table cells (writer half of property C03: what a custom
+// marshaler does not hand to the encoder is lost by Save), read by /verif/engine (govc).
+// Comments only: with or without the build tag this file adds no code to the package.
+package document
+
+//@ spec b2i(b bool) int = ite(b, 1, 0)
+// Position (relative to the first value written) of each child of a run, in the order w:rPr, w:t, w:br, w:drawing,
+// w:fldChar, w:instrText; a child is written iff it is populated.
+//@ spec runIdxText(r *Run) int = b2i(r.Properties != nil)
+//@ spec runIdxBreak(r *Run) int = runIdxText(r) + b2i(r.Text.Content != "")
+//@ spec runIdxDrawing(r *Run) int = runIdxBreak(r) + b2i(r.Break != nil)
+//@ spec runIdxFld(r *Run) int = runIdxDrawing(r) + b2i(r.Drawing != nil)
+//@ spec runIdxInstr(r *Run) int = runIdxFld(r) + b2i(r.FieldChar != nil)
+//@ spec runParts(r *Run) int = runIdxInstr(r) + b2i(r.InstrText != nil)
+
+// Run.MarshalXML hands the encoder every populated child of the run, each exactly once, in schema order, and nothing else.
+// The generated clause (one per pointer field of Run) makes a new field without marshaler support a failed obligation.
+//@ func (*Run).MarshalXML
+//@ props C03
+//@ requires r != nil && e != nil
+//@ modifies nothing
+//@ ensures err == nil ==> encCount() == old(encCount()) + runParts(r)
+//@ ensures err == nil && r.Properties != nil ==> typeIs(encAt(old(encCount())), "*RunProperties") && encAt(old(encCount())).(*RunProperties) == r.Properties
+//@ ensures err == nil && r.Text.Content != "" ==> typeIs(encAt(old(encCount()) + runIdxText(r)), "Text")
+//@ ensures err == nil && r.Break != nil ==> typeIs(encAt(old(encCount()) + runIdxBreak(r)), "*Break") && encAt(old(encCount()) + runIdxBreak(r)).(*Break) == r.Break
+//@ ensures err == nil && r.Drawing != nil ==> typeIs(encAt(old(encCount()) + runIdxDrawing(r)), "*DrawingElement") && encAt(old(encCount()) + runIdxDrawing(r)).(*DrawingElement) == r.Drawing
+//@ ensures err == nil && r.FieldChar != nil ==> typeIs(encAt(old(encCount()) + runIdxFld(r)), "*FieldChar") && encAt(old(encCount()) + runIdxFld(r)).(*FieldChar) == r.FieldChar
+//@ ensures err == nil && r.InstrText != nil ==> typeIs(encAt(old(encCount()) + runIdxInstr(r)), "*InstrText") && encAt(old(encCount()) + runIdxInstr(r)).(*InstrText) == r.InstrText
+//@ ensures forall-fields F of Run ptr :: err == nil && r.$F != nil ==> exists i int :: old(encCount()) <= i && i < encCount() && typeIs(encAt(i), "*$T") && encAt(i).(*$T) == r.$F
+
+// TableCell.MarshalXML: the cell properties (if any), then every paragraph in order, then every nested table in order.
+//@ func (*TableCell).MarshalXML
+//@ props C03
+//@ requires tc != nil && e != nil
+//@ modifies nothing
+//@ ensures err == nil ==> encCount() == old(encCount()) + b2i(tc.Properties != nil) + len(tc.Paragraphs) + len(tc.Tables)
+//@ ensures err == nil && tc.Properties != nil ==> typeIs(encAt(old(encCount())), "*TableCellProperties") && encAt(old(encCount())).(*TableCellProperties) == tc.Properties
+//@ ensures err == nil ==> forall k int :: 0 <= k && k < len(tc.Paragraphs) ==> typeIs(encAt(old(encCount()) + b2i(tc.Properties != nil) + k), "*Paragraph") && encAt(old(encCount()) + b2i(tc.Properties != nil) + k).(*Paragraph) == &tc.Paragraphs[k]
+//@ ensures err == nil ==> forall k int :: 0 <= k && k < len(tc.Tables) ==> typeIs(encAt(old(encCount()) + b2i(tc.Properties != nil) + len(tc.Paragraphs) + k), "*Table") && encAt(old(encCount()) + b2i(tc.Properties != nil) + len(tc.Paragraphs) + k).(*Table) == &tc.Tables[k]
+//@ loop 1
+//@   invariant 0 <= #i && #i <= len(tc.Paragraphs) && unchangedHeap()
+//@   invariant encCount() == old(encCount()) + b2i(tc.Properties != nil) + #i
+//@   invariant tc.Properties != nil ==> typeIs(encAt(old(encCount())), "*TableCellProperties") && encAt(old(encCount())).(*TableCellProperties) == tc.Properties
+//@   invariant forall k int :: 0 <= k && k < #i ==> typeIs(encAt(old(encCount()) + b2i(tc.Properties != nil) + k), "*Paragraph") && encAt(old(encCount()) + b2i(tc.Properties != nil) + k).(*Paragraph) == &tc.Paragraphs[k]
+//@   decreases len(tc.Paragraphs) - #i
+//@ loop 2
+//@   invariant 0 <= #i && #i <= len(tc.Tables) && unchangedHeap()
+//@   invariant encCount() == old(encCount()) + b2i(tc.Properties != nil) + len(tc.Paragraphs) + #i
+//@   invariant tc.Properties != nil ==> typeIs(encAt(old(encCount())), "*TableCellProperties") && encAt(old(encCount())).(*TableCellProperties) == tc.Properties
+//@   invariant forall k int :: 0 <= k && k < len(tc.Paragraphs) ==> typeIs(encAt(old(encCount()) + b2i(tc.Properties != nil) + k), "*Paragraph") && encAt(old(encCount()) + b2i(tc.Properties != nil) + k).(*Paragraph) == &tc.Paragraphs[k]
+//@   invariant forall k int :: 0 <= k && k < #i ==> typeIs(encAt(old(encCount()) + b2i(tc.Properties != nil) + len(tc.Paragraphs) + k), "*Table") && encAt(old(encCount()) + b2i(tc.Properties != nil) + len(tc.Paragraphs) + k).(*Table) == &tc.Tables[k]
+//@   decreases len(tc.Tables) - #i
